@@ -203,7 +203,8 @@ package journal
 //@        && (forall i int :: {j.days[dateOf(d)].Transactions[i]} 0 <= i && i < old(len(j.days[dateOf(d)].Transactions)) ==> j.days[dateOf(d)].Transactions[i] == old(j.days[dateOf(d)].Transactions[i]))
 //@        && (forall i int :: {j.days[dateOf(d)].Assertions[i]} 0 <= i && i < old(len(j.days[dateOf(d)].Assertions)) ==> j.days[dateOf(d)].Assertions[i] == old(j.days[dateOf(d)].Assertions[i]))
 //@        && (forall i int :: {j.days[dateOf(d)].Closings[i]} 0 <= i && i < old(len(j.days[dateOf(d)].Closings)) ==> j.days[dateOf(d)].Closings[i] == old(j.days[dateOf(d)].Closings[i]))
-//@   ensures [C05] @range: j.max >= old(j.max) && j.min <= old(j.min)
+//@   ensures [C05] [C06] @range: j.max == ((typeIs(d, "*price.Price") || typeIs(d, "*transaction.Transaction")) && old(j.max) < dateOf(d) ? dateOf(d) : old(j.max))
+//@        && j.min == (typeIs(d, "*transaction.Transaction") && old(j.min) > dateOf(d) ? dateOf(d) : old(j.min))
 //
 // Days: the days of the given dates, in the order of the dates (created where missing).
 //@ func (*Builder).Days
@@ -224,6 +225,7 @@ package journal
 //@   callback StartDates=0
 //@   callback Days=1
 //@   callback FromSlice=2
+//@   ensures wfBuilder(j)
 //@   ensures !enable ==> result == nil && tlen() == old(tlen())
 //@   ensures @days: enable ==> tlen() == old(tlen()) + 3 && targ("Days", 0, old(tlen()) + 1) == tres("StartDates", old(tlen()))
 //@        && targ("FromSlice", 0, old(tlen()) + 2) == tres("Days", old(tlen()) + 1)
